@@ -159,7 +159,9 @@ def run(tier, seed):
     # short once a tree has killed or hung the worker four times in a shard
     nest_cases = [c for c in uniq if c["id"].startswith("nest|")]
     res = core.run_batch([c for c in uniq if not c["id"].startswith("nest|")], sub_args=("c05", "prep"), hang_s=30, as_gb=4, max_deaths=4)
-    res.update(core.run_batch(nest_cases, sub_args=("c05", "prep"), hang_s=30, as_gb=4))
+    # (the deepest thorough rungs are megabyte-sized texts: the unoptimised build needs up to 40 s alone for the
+    # speculation-heavy families although the work stays within the bound, so the wall-clock cap is wider there)
+    res.update(core.run_batch(nest_cases, sub_args=("c05", "prep"), hang_s=30 if tier == "quick" else 180, as_gb=4))
     counts = {}
     skipped = 0
     for c in uniq:
